@@ -48,6 +48,7 @@ import (
 	"time"
 
 	"github.com/DataDog/datadog-go/v5/statsd"
+	"github.com/dgraph-io/badger/v4"
 	"go.uber.org/zap"
 	"pgregory.net/rapid"
 
@@ -143,11 +144,12 @@ func c08Pool(p []string, cfg c08Cfg) *kit.Pool {
 // ---- ops ---------------------------------------------------------------------
 
 type c08Op struct {
-	K     string     `json:"k"` // "write" | "run"
-	DS    string     `json:"ds,omitempty"`
-	Ents  []*kit.Ent `json:"ents,omitempty"`
-	Fault string     `json:"fault,omitempty"` // run: "" | "sinkerr" | "storeerr" | "kill"
-	At    int        `json:"at,omitempty"`    // 1-based index of the sink batch of this run
+	K      string     `json:"k"` // "write" | "run"
+	DS     string     `json:"ds,omitempty"`
+	Ents   []*kit.Ent `json:"ents,omitempty"`
+	Fault  string     `json:"fault,omitempty"`  // run: "" | "sinkerr" | "storeerr" | "kill"
+	TooBig bool       `json:"tooBig,omitempty"` // storeerr: the storage answers with badger.ErrTxnTooBig
+	At     int        `json:"at,omitempty"`     // 1-based index of the sink batch of this run
 }
 
 func c08GenWrite(t *rapid.T, pool *kit.Pool, cfg c08Cfg) c08Op {
@@ -455,6 +457,10 @@ func c08Run(h *vjHub, j *job, cfg c08Cfg, op c08Op, kind string, step int) *c08O
 			nth++
 			if nth == op.At {
 				hit = true
+				if op.TooBig {
+					// the error badger itself gives for a page that does not fit into one transaction
+					return badger.ErrTxnTooBig
+				}
 				return fmt.Errorf("verif: injected storage failure in the sink's write %d", op.At)
 			}
 			return nil
@@ -682,6 +688,9 @@ func TestVerif_C08(t *testing.T) {
 					op.Fault = rapid.SampledFrom([]string{"", "", "sinkerr", "storeerr", "kill"}).Draw(t, "fault")
 					if op.Fault != "" {
 						op.At = rapid.IntRange(1, nb+1).Draw(t, "at")
+					}
+					if op.Fault == "storeerr" {
+						op.TooBig = rapid.Bool().Draw(t, "tooBig")
 					}
 				}
 				doRun(op)
